@@ -12,6 +12,12 @@ class AnalysisError(Exception):
     """Cannot decide: anchor vanished / construct unmodelled (exit 2, never a violation)."""
 
 
+_STRM = (str,)
+_SETM = (set, frozenset)
+_PURE_METHODS = {"split": _STRM, "rsplit": _STRM, "splitlines": _STRM, "lower": _STRM, "upper": _STRM, "strip": _STRM, "lstrip": _STRM, "rstrip": _STRM,
+                 "replace": _STRM, "format": _STRM, "union": _SETM, "difference": _SETM, "intersection": _SETM, "copy": (set, frozenset, dict, list)}
+
+
 class NotConst(Exception):
     pass
 
@@ -80,6 +86,76 @@ class ClassInfo:
         return f"<class {self.qualname}>"
 
 
+class _DesugarEnumerate(ast.NodeTransformer):
+    """`for i, x in enumerate(seq[, start]): BODY` where `i` is only ever *compared* in BODY becomes
+
+        __enum_i = start; for x in seq: i = __enum_i; __enum_i += 1; BODY
+
+    (same meaning, also across `continue`), so that the index is an ordinary loop-carried counter.  Loops that use the
+    index as a subscript keep the enumerate form, which Engine A models as "slot of the element"."""
+
+    def visit_FunctionDef(self, node: ast.FunctionDef) -> Any:
+        self.generic_visit(node)
+        node.body = self._block(node.body)
+        return node
+
+    visit_AsyncFunctionDef = visit_FunctionDef  # type: ignore[assignment]
+
+    def _block(self, body: List[ast.stmt]) -> List[ast.stmt]:
+        out: List[ast.stmt] = []
+        for st in body:
+            for fld in ("body", "orelse", "finalbody"):
+                sub = getattr(st, fld, None)
+                if isinstance(sub, list) and sub and isinstance(sub[0], ast.stmt) and not isinstance(st, (ast.FunctionDef, ast.AsyncFunctionDef, ast.ClassDef)):
+                    setattr(st, fld, self._block(sub))
+            for h in getattr(st, "handlers", []) or []:
+                h.body = self._block(h.body)
+            rep = self._rewrite(st) if isinstance(st, ast.For) else None
+            out.extend(rep if rep else [st])
+        return out
+
+    @staticmethod
+    def _only_compared(body: List[ast.stmt], name: str) -> bool:
+        parents: Dict[int, ast.AST] = {}
+        for st in body:
+            for n in ast.walk(st):
+                for c in ast.iter_child_nodes(n):
+                    parents[id(c)] = n
+        used = False
+        for st in body:
+            for n in ast.walk(st):
+                if isinstance(n, ast.Name) and n.id == name:
+                    if not isinstance(n.ctx, ast.Load):
+                        return False
+                    used = True
+                    par = parents.get(id(n))
+                    if not (isinstance(par, ast.Compare) and all(isinstance(o, (ast.Gt, ast.GtE, ast.Lt, ast.LtE, ast.Eq, ast.NotEq)) for o in par.ops)
+                            and all(isinstance(x, ast.Constant) or x is n for x in [par.left] + par.comparators)):
+                        return False
+                if isinstance(n, (ast.FunctionDef, ast.Lambda)) :
+                    return False
+        return used
+
+    def _rewrite(self, st: ast.For) -> Optional[List[ast.stmt]]:
+        it, tg = st.iter, st.target
+        if not (isinstance(it, ast.Call) and isinstance(it.func, ast.Name) and it.func.id == "enumerate" and 1 <= len(it.args) <= 2 and not it.keywords
+                and isinstance(tg, ast.Tuple) and len(tg.elts) == 2 and isinstance(tg.elts[0], ast.Name)):
+            return None
+        idx = tg.elts[0].id
+        if st.orelse or not self._only_compared(st.body, idx):
+            return None
+        start = it.args[1] if len(it.args) == 2 else ast.Constant(0)
+        hidden = f"__enum_{idx}"
+        pre = ast.Assign([ast.Name(hidden, ast.Store())], start)
+        a1 = ast.Assign([ast.Name(idx, ast.Store())], ast.Name(hidden, ast.Load()))
+        a2 = ast.AugAssign(ast.Name(hidden, ast.Store()), ast.Add(), ast.Constant(1))
+        new = ast.For(tg.elts[1], it.args[0], [a1, a2] + st.body, [], None)
+        for n in (pre, new):
+            ast.copy_location(n, st)
+            ast.fix_missing_locations(n)
+        return [pre, new]
+
+
 class Module:
     def __init__(self, name: str, rel: str, src: str):
         self.name = name
@@ -89,6 +165,7 @@ class Module:
             self.tree = ast.parse(src, filename=rel)
         except SyntaxError as e:  # pragma: no cover
             raise AnalysisError(f"{rel} does not parse: {e}")
+        self.tree = _DesugarEnumerate().visit(self.tree)
         self.functions: Dict[str, ast.FunctionDef] = {}
         self.classes: Dict[str, ClassInfo] = {}
         self.assigns: Dict[str, List[ast.stmt]] = {}
@@ -468,6 +545,22 @@ class Program:
                 base = self.fold(f.value, mod, env)
                 if isinstance(base, dict):
                     return list(getattr(base, f.attr)())
+            # pure methods of constant strings / collections
+            if isinstance(f, ast.Attribute) and not expr.keywords and f.attr in _PURE_METHODS:
+                base = self.fold(f.value, mod, env)
+                if isinstance(base, _PURE_METHODS[f.attr]):
+                    args = [self.fold(a, mod, env) for a in expr.args]
+                    try:
+                        return getattr(base, f.attr)(*args)
+                    except Exception:
+                        raise NotConst("method")
+            if isinstance(f, ast.Name) and f.id == "sorted" and len(expr.args) == 1 and not expr.keywords:
+                try:
+                    return sorted(self.fold(expr.args[0], mod, env))
+                except NotConst:
+                    raise
+                except Exception:
+                    raise NotConst("sorted")
             raise NotConst("call")
         if isinstance(expr, ast.Starred):
             raise NotConst("starred")
